@@ -665,7 +665,11 @@ func (u *Unit) callByContract(st *State, fr *Frame, in *ssa.Call, fn *ssa.Functi
 		}
 		ret = tv
 	}
-	markFresh(u, st, ret)
+	if ct.FreshRes {
+		markFresh(u, st, ret)
+	} else {
+		markForeign(ret) // may alias the callee's inputs: not writable by the caller without a frame violation
+	}
 	// functional postcondition `result == E` on a single scalar result: substitute instead of equate
 	if rs.Len() == 1 {
 		for _, cl := range ct.Ensures {
@@ -728,6 +732,23 @@ func markFresh(u *Unit, st *State, v Value) {
 	case TupleV:
 		for _, f := range x {
 			markFresh(u, st, f)
+		}
+	}
+}
+
+func markForeign(v Value) {
+	switch x := v.(type) {
+	case SliceV:
+		if x.R != nil {
+			x.R.input, x.R.fresh = false, false
+		}
+	case StructV:
+		for _, f := range x.F {
+			markForeign(f)
+		}
+	case TupleV:
+		for _, f := range x {
+			markForeign(f)
 		}
 	}
 }
